@@ -451,6 +451,15 @@ class World:
             raise AssertionError('grid parameters do not give the grid')
         kw = dict(verbose=False, Lambda=cfg['Lambda'], vacuum=cfg['vacuum'],
                   tetrad=cfg['tetrad'])
+        # extraction sphere well inside the grid (the default one is centred
+        # on the origin, which most generated grids do not contain)
+        p_ = cfg['param']
+        half = [0.5 * (p_[n] - 1) * p_[d] for n, d in
+                (('Nx', 'dx'), ('Ny', 'dy'), ('Nz', 'dz'))]
+        kw['center'] = (p_['xmin'] + half[0], p_['ymin'] + half[1],
+                        p_['zmin'] + half[2])
+        kw['extract_radii'] = [0.6 * min(half)]
+        kw['lmax'] = 2
         if knobs:
             kw['clear_cache_every_nbr_calc'] = cfg['period']
             if cfg['mem_scalars'] is not None:
@@ -530,7 +539,7 @@ HELPER_SPECS.append(('st_covd', ['scalar', 'scalar'], {'indexing': ''}))
 HELPER_SPECS.append(('st_covd', ['vec4', 'vec4'], {'indexing': 'u'}))
 HELPER_SPECS.append(('st_covd', ['vec4', 'vec4'], {'indexing': 'd'}))
 
-SKIP_KEYS = {'Psi4_lm'}          # needs an extraction sphere inside the grid
+SKIP_KEYS = set()       # Psi4_lm: World.make puts its sphere inside the grid
 
 
 def gen_ops(rng, cfg, profile='C01', nmax=24):
